@@ -1712,6 +1712,51 @@ func ruleC12DecidedByEqual(c *Ctx) {
 				guards = append(guards, inner...)
 			}
 		}
+		// the search of the bucket may be slices.IndexFunc / slices.ContainsFunc with a predicate that is the equality
+		// function applied to the item and the member
+		for _, g := range guards {
+			var sc *ssa.Call
+			if cc, ok := g.Cond.(*ssa.Call); ok && g.Pol {
+				sc = cc
+			}
+			if bo, ok := g.Cond.(*ssa.BinOp); ok {
+				if cc, ok := bo.X.(*ssa.Call); ok {
+					if k, ok := bo.Y.(*ssa.Const); ok {
+						if kv, ok := constInt(k); ok && (g.Pol && (bo.Op == token.GEQ && kv == 0 || bo.Op == token.NEQ && kv == -1 || bo.Op == token.GTR && kv == -1) || !g.Pol && (bo.Op == token.LSS && kv == 0 || bo.Op == token.EQL && kv == -1)) {
+							sc = cc
+						}
+					}
+				}
+			}
+			if sc == nil || len(sc.Call.Args) != 2 {
+				continue
+			}
+			if key := core.CalleeKey(&sc.Call); !strings.HasPrefix(key, "slices.IndexFunc") && !strings.HasPrefix(key, "slices.ContainsFunc") {
+				continue
+			}
+			for _, src := range append(traceSources(sc.Call.Args[1]), sc.Call.Args[1]) {
+				mc, ok := src.(*ssa.MakeClosure)
+				if !ok {
+					continue
+				}
+				pf := mc.Fn.(*ssa.Function)
+				all, any := true, false
+				core.EachInstr(pf, func(j ssa.Instruction) {
+					pr, ok := j.(*ssa.Return)
+					if !ok || len(pr.Results) != 1 {
+						return
+					}
+					any = true
+					ec, ok := pr.Results[0].(*ssa.Call)
+					if !ok || ec.Call.StaticCallee() != eq {
+						all = false
+					}
+				})
+				if all && any {
+					byEq = true
+				}
+			}
+		}
 		for _, g := range guards {
 			if gc, ok := g.Cond.(*ssa.Call); ok && g.Pol && gc.Call.StaticCallee() == eq {
 				a, b := gc.Call.Args[0], gc.Call.Args[1]
